@@ -106,7 +106,10 @@ func Variants(samIn, refIn io.Reader, refFromFile bool, annoIn io.Reader, annoSu
 	// the reader reports a stream it can't parse (e.g. an empty one) on the
 	// error channel instead of sending a header
 	select {
-	case <-cSH:
+	case header := <-cSH:
+		if err := checkReferenceLength(header, len(ref.Seq)); err != nil {
+			return err
+		}
 	case err := <-cErr:
 		return err
 	}
